@@ -13,9 +13,9 @@
   successful `sign`, since relic tests them itself:
     noSlack  (F-MACHO-4, fixed in /repo bd2b0c4)  `regular_noSlack`  — `scanFile` refuses unused bytes behind the last load
              command when a command is going to be added (`macho_slack_refused`); the old behaviour: `macho_slack_breaks_orig`
-    small    (F-MACHO-3, fixed in /repo 5805b39)  `regular_small`    — `Sign` refuses a fresh region above 10^7 bytes
-             (`macho_sign_refuses_oversize`, C01_MachOFull.lean); what remains is `oldSmall`: an EXISTING region that is big
-             enough is reused whatever its size, so it must itself be one the verifier reads (≤ 10^7 bytes).
+    small    (F-MACHO-3 / F-MACHO-3b, fixed in /repo 5805b39 / e678460)  `regular_small`  — `Sign` refuses when the region it
+             is going to use, fresh or reused, exceeds 10^7 bytes (`macho_sign_refuses_oversize_region`, C01_MachOFull.lean).
+             No size hypothesis is left (the intermediate field `oldSmall` is gone with fix F-MACHO-3b).
 -/
 import Relic.Proofs.MachOSigned
 import Relic.Proofs.MachOGuards
@@ -50,18 +50,9 @@ structure RegularImage (f : Bytes) (so : SignOut) : Prop where
   /-- the end of code and the old signature lie inside the file (`scanFile` never looks at the file size) -/
   oldInside : so.plan.m.codeSize + so.plan.m.sigLen ≤ f.length
 
-/-- **Regular**: a regular image whose EXISTING signature region (if any) is not "unreasonably large" for the verifier.
-    (Trivially true for an unsigned image: `sigLen = 0`.) -/
-structure Regular (f : Bytes) (so : SignOut) : Prop extends RegularImage f so where
-  /-- `readSigBlob` refuses `length > 10e6` ("unreasonably large LC_CODE_SIGNATURE").  Since fix F-MACHO-3 `Sign` refuses
-      to RESERVE more than that (`sign_refuses_oversize`); but an old region that is at least as large as the estimate is
-      reused as it is (`markers.sigLen < estimatedSize && …` does not look at it), so an image that already carries a
-      region of more than 10^7 bytes — which relic's verifier refuses as it stands — is still signed into a file the
-      verifier refuses (`macho_reused_oversize_region_refused`).  In the fresh-region branch the field holds by itself
-      (`sigLen < estimate ≤ 10^7`).
-      (The bound also keeps `uint32(sigStart)` / `uint32(sigSize)` in `patchLoadCmd` from truncating:
-      `MachO.cs_lt_of_small`.) -/
-  oldSmall : so.plan.m.sigLen ≤ 10000000
+/-- **Regular** = `RegularImage`: since the fixes F-MACHO-3 / F-MACHO-3b (`Sign` tests the size of the region it is going to
+    use, fresh or reused) no size condition is left to assume.  (The name is kept for the theorems that use it.) -/
+abbrev Regular (f : Bytes) (so : SignOut) : Prop := RegularImage f so
 
 /-- **regular_noSlack** (the former field `noSlack`, finding F-MACHO-4): when a command is going to be added the commands
     fill `sizeofcmds` exactly — `scanFile` has tested it -/
@@ -70,11 +61,12 @@ theorem regular_noSlack (f : Bytes) (p : SignParams) (so : SignOut) (hs : sign f
       hdrEndOf so.plan.m.magic + ((loadsOf f).map (fun e => e.2.2)).sum = so.plan.m.nextLc :=
   scan_noSlack f so.plan.m (loadsOf f) (sign_inv' f p so hs).2.1 R.accepts
 
-/-- **regular_small** (the former field `small`, finding F-MACHO-3): the reserved region is at most 10^7 bytes — `Sign` has
-    tested the fresh one, `oldSmall` covers the reused one -/
-theorem regular_small (f : Bytes) (p : SignParams) (so : SignOut) (hs : sign f p = .ok so) (R : Regular f so) :
+/-- **regular_small** (the former fields `small` / `oldSmall`, findings F-MACHO-3 / F-MACHO-3b): the region `Sign` uses is at
+    most 10^7 bytes — `Sign` has tested it, in both branches of `PatchSignature`; follows from a successful `Sign` alone.
+    (The bound also keeps `uint32(sigStart)` / `uint32(sigSize)` in `patchLoadCmd` from truncating: `MachO.cs_lt_of_small`.) -/
+theorem regular_small (f : Bytes) (p : SignParams) (so : SignOut) (hs : sign f p = .ok so) :
     so.plan.po.sigBufLen ≤ 10000000 :=
-  sign_small f p so hs R.oldSmall
+  sign_small f p so hs
 
 /-- **macho_sign_then_locate.**  Both branches of `PatchSignature` (old region reused / fresh region with the header
     patched: LC_CODE_SIGNATURE appended, or an existing one overwritten — behind or in front of the __LINKEDIT command;
@@ -87,16 +79,16 @@ theorem macho_sign_then_locate (f : Bytes) (p : SignParams) (so : SignOut) (blob
       locate g = .ok (so.plan.po.sigStart, so.plan.po.sigBufLen) ∧
       g.take so.plan.po.sigStart = so.plan.stream ∧
       MachO.sliceOf g so.plan.po.sigStart so.plan.po.sigBufLen = blob ++ zeros (so.plan.po.sigBufLen - blob.length) := by
-  have hsmall := regular_small f p so hs R
+  have hsmall := regular_small f p so hs
   obtain ⟨g, h1, h2, h3, h4, _⟩ := sign_then_locate_core f p so blob (loadsOf f) (sign_orig_of_sign f p so hs) R.accepts
-    R.oneSig (regular_noSlack f p so hs R.toRegularImage) R.leKind R.hdrBelow R.oldInside (Or.inl hsmall) hb
+    R.oneSig (regular_noSlack f p so hs R) R.leKind R.hdrBelow R.oldInside (Or.inl hsmall) hb
   exact ⟨g, h1, by rw [h2, sigAnswer_small _ _ hsmall], h3, h4⟩
 
 /-- the code limit the signer puts into the code directory is the start of the signature region -/
 theorem macho_sign_limit (f : Bytes) (p : SignParams) (so : SignOut) (hs : sign f p = .ok so) (R : Regular f so) :
     so.signed.pages.limit = so.plan.po.sigStart := by
   obtain ⟨g, _, _, _, _, h⟩ := sign_then_locate_core f p so [] (loadsOf f) (sign_orig_of_sign f p so hs) R.accepts R.oneSig
-    (regular_noSlack f p so hs R.toRegularImage) R.leKind R.hdrBelow R.oldInside (Or.inl (regular_small f p so hs R)) (Nat.zero_le _)
+    (regular_noSlack f p so hs R) R.leKind R.hdrBelow R.oldInside (Or.inl (regular_small f p so hs)) (Nat.zero_le _)
   exact h
 
 /-- **macho_sign_then_verify_regular**: the three conjuncts of `macho_sign_then_verify_full` under `Regular` -/
@@ -131,13 +123,12 @@ theorem macho_regular_demo : ∃ so, sign fGood p0 = .ok so ∧ Regular fGood so
     have e1 : so.plan.po.sigStart = 120 := by rw [F.sigStart]; decide +kernel
     have e2 : so.plan.po.sigBufLen = 16392 := by rw [F.sigBufLen]; decide +kernel
     have e3 : so.plan.po.newHeader.length = 120 := by rw [HS.len]; decide +kernel
-    refine ⟨so, hsn, ⟨⟨?_, ?_, ?_, ?_, ?_⟩, ?_⟩, e1, e2⟩
+    refine ⟨so, hsn, ⟨?_, ?_, ?_, ?_, ?_⟩, e1, e2⟩
     · rw [hm]; decide +kernel
     · rw [hm]; decide +kernel
     · rw [hm]; decide +kernel
     · rw [hm, e3]; decide +kernel
     · rw [hm]; decide +kernel
-    · rw [hm]; decide
 
 open Demo in
 /-- non-vacuity, fresh region with an EXISTING LC_CODE_SIGNATURE command: the old region (16 bytes at offset 136) is too
@@ -154,13 +145,12 @@ example : ∃ so, sign (fSigned 16) p0 = .ok so ∧ Regular (fSigned 16) so ∧ 
     have e1 : so.plan.po.sigStart = 136 := by rw [F.sigStart]; decide +kernel
     have e2 : so.plan.po.sigBufLen = 16392 := by rw [F.sigBufLen]; decide +kernel
     have e3 : so.plan.po.newHeader.length = 120 := by rw [HS.len]; decide +kernel
-    refine ⟨so, hsn, ⟨⟨?_, ?_, ?_, ?_, ?_⟩, ?_⟩, by rw [hm]; rfl, e1, e2⟩
+    refine ⟨so, hsn, ⟨?_, ?_, ?_, ?_, ?_⟩, by rw [hm]; rfl, e1, e2⟩
     · rw [hm]; decide +kernel
     · rw [hm]; decide +kernel
     · rw [hm]; decide +kernel
     · rw [hm, e3]; decide +kernel
     · rw [hm]; decide +kernel
-    · rw [hm]; decide
 
 open Demo in
 /-- non-vacuity, reuse branch: the old region (16392 bytes at offset 136) is big enough, the header is not touched -/
@@ -173,12 +163,11 @@ example : ∃ so, sign (fSigned 16392) p0 = .ok so ∧ Regular (fSigned 16392) s
   | ok so =>
     have hsn := signNew_of (fSigned 16392) (mSigned 16392) so hso scan_fReuse scanNew_fReuse (by decide +kernel) (by decide +kernel)
     obtain ⟨hm, hpo⟩ := sign_reuse_facts (fSigned 16392) p0 so (mSigned 16392) hso scan_fReuse (by decide +kernel)
-    refine ⟨so, hsn, ⟨⟨?_, ?_, ?_, ?_, ?_⟩, ?_⟩, by rw [hpo]; rfl, by rw [hpo]; rfl, by rw [hpo]; rfl⟩
+    refine ⟨so, hsn, ⟨?_, ?_, ?_, ?_, ?_⟩, by rw [hpo]; rfl, by rw [hpo]; rfl, by rw [hpo]; rfl⟩
     · rw [hm]; decide +kernel
     · rw [hm]; decide +kernel
     · rw [hm]; decide +kernel
     · rw [hm, hpo]; decide +kernel
-    · rw [hm]; decide +kernel
     · rw [hm]; decide +kernel
 
 open Demo in
